@@ -55,6 +55,12 @@ def register_titled_directive():
             return [node]
 
     directives.register_directive("mv-titled", Titled)
+    from docutils.parsers.rst import roles
+
+    def boom_role(name, rawtext, text, lineno, inliner, options=None, content=None):
+        raise ValueError("role implementation failed")
+
+    roles.register_local_role("mvboom5", boom_role)
 
     class TitledSection(Directive):
         """The other common idiom (nested_parse_with_titles): parse into a throw-away section and return its children."""
@@ -198,12 +204,17 @@ def build(case):
             fn = f"inc{n}.md"
             body = []
             nested = it[4] if len(it) > 4 else None
+            boom = len(it) > 5 and it[5]
             for j, L in enumerate(levels):
                 m = f"ih{n}x{j}"
                 body += ["#" * L + " " + m, "", f"iq{n}x{j} para", ""]
                 events.append(("h", m, L + off))
                 order += [m, f"iq{n}x{j}"]
                 hline[m] = None
+                if boom and j == 0:
+                    # the include fails here (a role implementation raises): what it rendered so far stays, the rest of the file is not rendered
+                    body += ["text {mvboom5}`x` text", "", "# never rendered heading", ""]
+                    break
                 if nested and j == 0:
                     # an include inside the included file (its own offset applies there), followed by more headings of the outer file
                     off2, lv2 = nested
@@ -395,7 +406,7 @@ def eval_case(ctx, case):
     nmsg = sum(1 for sm in doc.findall(nodes.system_message) if "[myst.header]" in sm.astext() and not (sm.get("line") in tb_lines and str(sm.get("source", "")).endswith("doc.md")))
     if nmsg != len(exp_warns):
         ctx.violation("warning:node-count", f"{nmsg} [myst.header] system_message nodes, model {len(exp_warns)}", case, detail)
-    other = [w for w in drive.split_warnings(wtext) if not HDR.search(w["msg"])]
+    other = [w for w in drive.split_warnings(wtext) if not HDR.search(w["msg"]) and not ("Directive 'include' failed" in w["msg"] and any(it[0] == "inc" and len(it) > 5 and it[5] for it in case.get("items", [])))]
     if other:
         ctx.violation("warning:unexpected-other", f"unexpected other warning: {other[0]['msg'][:120]}", case, {**detail, "stream": wtext})
     ctx.count("sections_checked", len(exp_parent))
@@ -463,7 +474,9 @@ def run_shard(ctx):
                 items.append(["b", R.choice(["hr", "code", "list", "target", "comment", "fence", "table", "break"])])
             else:
                 items.append(["inc", R.choice([0, 0, 1, 2, 3, 5]), [R.randint(1, 6) for _ in range(R.randint(1, 3))], R.random() < 0.5,
-                              [R.choice([0, 0, 1, 2]), [R.randint(1, 6) for _ in range(R.randint(0, 2))]] if R.random() < 0.4 else None])
+                              [R.choice([0, 0, 1, 2]), [R.randint(1, 6) for _ in range(R.randint(0, 2))]] if R.random() < 0.4 else None, R.random() < 0.2])
+                if items[-1][5]:
+                    items[-1][4] = None
         case = {"kind": "mixed", "items": items}
         if R.random() < 0.12:
             case["front_title"] = True
